@@ -150,8 +150,11 @@ def rand_model(run, wd, tier):
     return res["json"]
 
 
+JCONSTS = {"NV": 12, "NU": 1, "NL": 144, "NLaw": 1}      # judging pool (the model pool RCONSTS stays small)
+
+
 def judge_rand(records, wd, name):
-    return ST.judge("C20", RCONSTS, records, wd, name, module="JudgeBuild",
+    return ST.judge("C20", JCONSTS, records, wd, name, module="JudgeBuild",
                     fields=("id", "count", "k", "ensure", "err", "adj", "post"))
 
 
@@ -191,8 +194,7 @@ def c20(tier, seed, wd, replay=None):
     nseeds = 40 if tier == "quick" else 400
     repro_bad = []
     for s in range(nseeds):
-        count = 1 + (s % 9) if s % 5 else 12 + s % 7
-        count = min(count, 6)
+        count = 1 + (s % 12)
         conn = [None, (1, 1), (1, 2), (0, 1), (3, 4)][s % 5]
         ensure = bool(s % 2)
         kind = ("D", "U", "T", "D2")[s % 4]
